@@ -51,6 +51,8 @@ def _clone(pe):
     q.conds, q.calls, q.writes = list(pe.conds), list(pe.calls), list(pe.writes)
     q._facts = {k: [v[0], set(v[1])] for k, v in getattr(pe, "_facts", {}).items()}
     q.path = list(pe.path)
+    if hasattr(pe, "mutrefs"):
+        q.mutrefs = dict(pe.mutrefs)
     return q
 
 
